@@ -666,3 +666,20 @@ package cl
 //@ func cl.(*HashTableCount).Call
 //@   property C16
 //@   ensures count: is(result, slip.Fixnum) && as(result, slip.Fixnum) == len(table(args[0]))
+
+// ---------------------------------------------------------------------------
+// C16: eq implies equal implies equalp. equal and equalp answer t for identical
+// objects, compare two numbers by value through the same comparison (so they
+// cannot disagree on any pair of numbers, whatever the representations), and
+// equalp accepts every pair of characters that equal accepts.
+//@ pure-func cl.eq cl.same
+//@ func cl.equal
+//@   property C16
+//@   ensures identical-objects: eq(x, y) ==> result0
+//@   ensures numbers-by-value: (implements(x, slip.Number) && !is(x, slip.Character) && !eq(x, y)) ==> (result0 == (implements(y, slip.Number) && same(x, y) != nil))
+//@   ensures characters-by-code: (is(x, slip.Character) && !eq(x, y)) ==> (result0 == (is(y, slip.Character) && asInt(y) == asInt(x)))
+//@ func cl.equalp
+//@   property C16
+//@   ensures identical-objects: eq(x, y) ==> result0
+//@   ensures numbers-by-value: (implements(x, slip.Number) && !is(x, slip.Character) && !eq(x, y)) ==> (result0 == (implements(y, slip.Number) && same(x, y) != nil))
+//@   ensures characters-at-least-by-code: (is(x, slip.Character) && is(y, slip.Character) && asInt(y) == asInt(x)) ==> result0
